@@ -24,6 +24,15 @@ pub(crate) fn mk_exec(n: usize, max_branches: usize, preemption_bound: Option<us
     e
 }
 
+/// Like `mk_exec` with separate capacities for the decision stack and the
+/// object store (the object store's byte size dominates the formula size).
+pub(crate) fn mk_exec_caps(n: usize, path_cap: usize, obj_cap: usize) -> Execution {
+    let mut e = mk_exec(n, path_cap, None);
+    let old = std::mem::replace(&mut e.objects, object::Store::with_capacity(obj_cap));
+    std::mem::forget(old);
+    e
+}
+
 /// Replace the thread set (e.g. by one with symbolic clocks).
 pub(crate) fn set_threads(e: &mut Execution, set: thread::Set) {
     let old = std::mem::replace(&mut e.threads, set);
